@@ -86,7 +86,7 @@ def _full(fpath, tvars, out):
 
 
 def check_case(arg):
-    """-> list of (clause, text).  Raises on machinery problems (a legal strict source rejected)."""
+    """-> list of (clause, text).  A legal strict source rejected is reported under the denotation guard."""
     wdir, st, full = arg
     from cylc.flow.parsec.fileparse import parse
     from cylc.flow.cfgspec.workflow import RawWorkflowConfig
@@ -109,7 +109,8 @@ def check_case(arg):
             raw1 = tree(parse(src, output_fname=proc, template_vars=dict(tvars)))
         except Exception as exc:
             if st["strict"]:
-                raise RuntimeError(f"legal source {features(c)} rejected: {type(exc).__name__}: {exc}") from exc
+                return [("denote", f"the source is legal (its meaning is defined by ConfigAst.tla) but is rejected: "
+                         f"{type(exc).__name__}: {' '.join(str(exc).split())[:300]}")]
             return []          # the documented rejection happened: nothing to compare
         with open(proc) as f:
             proc_text = f.read()
